@@ -1,9 +1,14 @@
 import Flowjaxv.Proofs.Masks
+import Flowjaxv.Proofs.MasksGen
 /-!
 # C09 — autoregressive, coupling and block structure holds for all weights
 
-Property theorems only (helper lemmas live in `Proofs/Masks.lean`).  Every statement is about the hand-written
-executable model `Model/Masks.lean` (tied to `/repo` by the correspondence `tools/props/c09.py`), instantiated at `ℝ`.
+Property theorems only (helper lemmas live in `Proofs/Masks.lean`, `Proofs/MasksGen.lean`).  The statements of the first
+sections are about the hand-written executable model `Model/Masks.lean`; the last section (`gen_…`) proves that the mask
+helpers, the rank assignment and the per-layer masks GENERATED from `/repo/flowjax/masks.py` and
+`/repo/flowjax/bijections/masked_autoregressive.py` on every run (`Gen/MasksGen.lean`) are equal to that model for every size,
+and restates the specifications on the generated definitions.  Both are also run against the real code by
+`tools/props/c09.py`.  Real-valued statements are instantiated at `ℝ`.
 Arrays are lists; `l[i]?` is `none` past the end, so an equation `u[i]? = v[i]?` between two outputs of the same
 length says "coordinate `i` is the same".  All sizes (dim, cond_dim, width, depth, parameters per dimension, block
 shape, number of blocks, offset `k`) and all raw weights / biases / scales / activations are universally quantified.
@@ -287,7 +292,135 @@ theorem bnaf_jacobian_product (bo bm bi n p s : Nat) (hbm : 0 < bm) (hbo : 0 < b
   obtain ⟨h1, h2⟩ := blockLT_mul_diag bo bm p (bm * n) A d hd hA hAp
   exact ⟨blockLT_matMul bo bm bi (bm * n) _ B h1 hB, blockDiagPos_matMul bo bm bi n p s hbm hp hbo _ B h1 hB h2 hBp⟩
 
+/-! ## the definitions GENERATED from the source equal the model — every size -/
+
+/-- `rank_based_mask` as translated from `masks.py` (`op = operator.ge if eq else operator.gt; op(out[:, None], in)`) is the
+model's, for all rank vectors and both values of `eq`. -/
+theorem gen_rank_mask_eq_model (inR outR : List Int) (eq : Bool) :
+    Gen.rankBasedMask inR outR eq = rankBasedMask inR outR eq := MasksGenPf.gen_rankBasedMask inR outR eq
+
+/-- `block_diag_mask` as translated (`block_diag(*jnp.ones((n_blocks, *block_shape), bool))`) is the model's, every block shape
+and number of blocks (zero included). -/
+theorem gen_block_diag_eq_model (b0 b1 n : Nat) : Gen.blockDiagMask (b0, b1) n = blockDiagMask b0 b1 n :=
+  MasksGenPf.gen_blockDiagMask b0 b1 n
+
+/-- `block_tril_mask` as translated — `jnp.zeros`, the `for i in range(n_blocks)` loop, `row_i = max(0, i - k) * block_shape[0]`,
+`col_i = i * block_shape[1]`, the Python slices `row_i:` and `col_i : col_i + block_shape[1]` with Python's bound
+normalisation — is the model's, every block shape, number of blocks and offset `k ∈ ℤ`. -/
+theorem gen_block_tril_eq_model (b0 b1 n : Nat) (k : Int) : Gen.blockTrilMask (b0, b1) n k = blockTrilMask b0 b1 n k :=
+  MasksGenPf.gen_blockTrilMask b0 b1 n k
+
+/-- the rank vectors as translated from `MaskedAutoregressive.__init__` (both branches of `if cond_dim is None`, `jnp.arange`,
+`%` with JAX's `x % 0 = 0`, `jnp.hstack`, `-jnp.ones(cond_dim, int)`, `jnp.repeat`) are the model's — every dim (0 and 1
+included), width, cond_dim, number of parameters per dimension. -/
+theorem gen_maf_ranks_eq_model (np dim width : Nat) (cd : Option Nat) :
+    Gen.mafRanks np dim cd width = (mafInRanks dim cd, mafHiddenRanks dim width cd, mafOutRanks dim np) :=
+  MasksGenPf.gen_mafRanks np dim width cd
+
+/-- `masked_autoregressive_mlp` as translated (the list `[in_ranks, *[hidden_ranks] * depth, out_ranks]`, the loop over
+`enumerate(mlp.layers)`, `rank_based_mask(ranks[i], ranks[i + 1], eq = i != len(mlp.layers) - 1)`, `eqx.tree_at` putting
+`Where(mask, linear.weight, 0)` in place of each weight): for every MLP with `depth + 1` layers the `Where.cond`s in layer order
+are the model's `mlpMasks`, each `Where.if_true` is the layer's own raw weight, and `depth` is unchanged — all rank vectors,
+every depth. -/
+theorem gen_maf_layer_masks_eq_model {ω : Type} (mlp : JnpMask.MLP ω) (hlen : mlp.layers.length = mlp.depth + 1)
+    (inR hidR outR : List Int) :
+    (Gen.maskedAutoregressiveMlp mlp inR hidR outR).layers.map (fun L => L.weight.cond) = mlpMasks inR hidR outR mlp.depth ∧
+    (Gen.maskedAutoregressiveMlp mlp inR hidR outR).layers.map (fun L => L.weight.if_true) = mlp.layers.map (fun L => L.weight) ∧
+    (Gen.maskedAutoregressiveMlp mlp inR hidR outR).depth = mlp.depth :=
+  MasksGenPf.gen_mlp_masks mlp hlen inR hidR outR
+
+/-- the constructor end to end: the masks `MaskedAutoregressive.__init__` installs (generated rank assignment fed to the generated
+`masked_autoregressive_mlp`) are exactly `MafNet.masks` — the masks every MAF theorem above (`maf_autoregressive`,
+`maf_dim1`, `maf_complete`, …) is about. -/
+theorem gen_maf_masks_eq_model {α ω : Type} (N : MafNet α) (mlp : JnpMask.MLP ω) (hd : mlp.depth = N.depth)
+    (hlen : mlp.layers.length = mlp.depth + 1) :
+    (Gen.maskedAutoregressiveMlp mlp (Gen.mafRanks N.numParams N.dim N.condDim N.width).1
+        (Gen.mafRanks N.numParams N.dim N.condDim N.width).2.1
+        (Gen.mafRanks N.numParams N.dim N.condDim N.width).2.2).layers.map (fun L => L.weight.cond) = N.masks := by
+  rw [gen_maf_ranks_eq_model, (gen_maf_layer_masks_eq_model mlp hlen _ _ _).1, hd]
+  rfl
+
+/-- `rank_mask_spec` on the generated definition -/
+theorem gen_rank_mask_spec (inR outR : List Int) (eq : Bool) :
+    HasShape (Gen.rankBasedMask inR outR eq) outR.length inR.length ∧
+    ∀ r c (hr : r < outR.length) (hc : c < inR.length),
+      (entry (Gen.rankBasedMask inR outR eq) r c = true ↔ if eq = true then inR[c] ≤ outR[r] else inR[c] < outR[r]) := by
+  rw [gen_rank_mask_eq_model]; exact rank_mask_spec inR outR eq
+
+/-- `block_diag_spec` on the generated definition -/
+theorem gen_block_diag_spec (b0 b1 n : Nat) :
+    HasShape (Gen.blockDiagMask (b0, b1) n) (b0 * n) (b1 * n) ∧
+    ∀ r c, r < b0 * n → c < b1 * n → (entry (Gen.blockDiagMask (b0, b1) n) r c = true ↔ r / b0 = c / b1) := by
+  rw [gen_block_diag_eq_model]; exact block_diag_spec b0 b1 n
+
+/-- `block_tril_spec` on the generated definition: entry `(r, c)` of the generated loop's result is true iff
+`c / b1 - k ≤ r / b0` — every block shape, number of blocks and offset. -/
+theorem gen_block_tril_spec (b0 b1 n : Nat) (k : Int) :
+    HasShape (Gen.blockTrilMask (b0, b1) n k) (b0 * n) (b1 * n) ∧
+    ∀ r c, r < b0 * n → c < b1 * n →
+      (entry (Gen.blockTrilMask (b0, b1) n k) r c = true ↔ ((c / b1 : Nat) : Int) - k ≤ ((r / b0 : Nat) : Int)) := by
+  rw [gen_block_tril_eq_model]; exact block_tril_spec b0 b1 n k
+
+/-- `maf_ranks_spec` on the generated rank assignment, entry by entry, both branches, `dim = 1` included -/
+theorem gen_maf_ranks_spec (dim width np : Nat) (cd : Option Nat) :
+    let rk := Gen.mafRanks np dim cd width
+    rk.1.length = dim + cd.getD 0 ∧
+    (∀ j, j < dim → rk.1[j]? = some (j : Int)) ∧
+    (∀ c j, cd = some c → dim ≤ j → j < dim + c → rk.1[j]? = some (-1 : Int)) ∧
+    rk.2.1.length = width ∧
+    (∀ u, u < width → cd = none → 2 ≤ dim → rk.2.1[u]? = some ((u % (dim - 1) : Nat) : Int)) ∧
+    (∀ u, u < width → cd = none → dim = 1 → rk.2.1[u]? = some (0 : Int)) ∧
+    (∀ u c, u < width → cd = some c → 1 ≤ dim → rk.2.1[u]? = some (((u % dim : Nat) : Int) - 1)) ∧
+    rk.2.2.length = dim * np ∧
+    (∀ o, o < dim * np → rk.2.2[o]? = some ((o / np : Nat) : Int)) := by
+  intro rk
+  have h : rk = _ := gen_maf_ranks_eq_model np dim width cd
+  rw [h]
+  exact maf_ranks_spec dim width np cd
+
+/-- `mlp_masks_spec` on the generated loop: `≥`-masks between all but the last pair of rank vectors, one strict mask at the
+end; depth `0` gives a single strict mask in → out. -/
+theorem gen_mlp_masks_spec {ω : Type} (mlp : JnpMask.MLP ω) (hlen : mlp.layers.length = mlp.depth + 1)
+    (inR hidR outR : List Int) :
+    (mlp.depth = 0 → (Gen.maskedAutoregressiveMlp mlp inR hidR outR).layers.map (fun L => L.weight.cond)
+        = [Gen.rankBasedMask inR outR false]) ∧
+    (∀ d, mlp.depth = d + 1 → (Gen.maskedAutoregressiveMlp mlp inR hidR outR).layers.map (fun L => L.weight.cond)
+        = Gen.rankBasedMask inR hidR true ::
+            (List.replicate d (Gen.rankBasedMask hidR hidR true) ++ [Gen.rankBasedMask hidR outR false])) := by
+  simp only [gen_rank_mask_eq_model, (gen_maf_layer_masks_eq_model mlp hlen inR hidR outR).1]
+  exact ⟨fun h => by rw [h]; exact (mlp_masks_spec inR hidR outR 0).1,
+    fun d h => by rw [h]; exact (mlp_masks_spec inR hidR outR d).2⟩
+
+/-- `mask_survives_update` for the `Where` nodes the generated constructor installs: pairing layer `l`'s generated mask with ANY
+raw weight, the unwrapped weight is `0` wherever the mask is false. -/
+theorem gen_mask_survives_update {α ω : Type} [OfNat α 0] (mlp : JnpMask.MLP ω) (inR hidR outR : List Int) (l : Nat)
+    (hl : l < (Gen.maskedAutoregressiveMlp mlp inR hidR outR).layers.length) (w : List (List α)) (bias : List α)
+    (r c : Nat) :
+    let L : MaskedLinear α := ⟨(Gen.maskedAutoregressiveMlp mlp inR hidR outR).layers[l].weight.cond, w, bias⟩
+    ∀ (hr : r < L.unwrapW.length) (hc : c < L.unwrapW[r].length), entry L.mask r c = false → L.unwrapW[r][c] = 0 :=
+  fun hr hc h => mask_survives_update _ r c hr hc h
+
 /-! ## non-vacuity: concrete instances -/
+
+/-- the generated definitions evaluated by the kernel: `block_tril_mask((2, 1), 3, -1)`, `block_diag_mask((2, 1), 3)`,
+`rank_based_mask`, the rank vectors of `dim = 3, cond_dim = 2, nn_width = 4` with 2 parameters per dimension and of
+`dim = 1` unconditional (`% 0`), and the three `Where.cond`s of a depth-2 network on them. -/
+theorem gen_masks_instance :
+    Gen.blockTrilMask (2, 1) 3 (-1) = [[false, false, false], [false, false, false], [true, false, false],
+      [true, false, false], [true, true, false], [true, true, false]] ∧
+    Gen.blockDiagMask (2, 1) 3 = [[true, false, false], [true, false, false], [false, true, false], [false, true, false],
+      [false, false, true], [false, false, true]] ∧
+    Gen.rankBasedMask [0, 1, -1] [0, 1] true = [[true, false, true], [true, true, true]] ∧
+    Gen.mafRanks 2 3 (some 2) 4 = ([0, 1, 2, -1, -1], [-1, 0, 1, -1], [0, 0, 1, 1, 2, 2]) ∧
+    Gen.mafRanks 2 1 none 3 = ([0], [0, 0, 0], [0, 0]) ∧
+    (Gen.maskedAutoregressiveMlp (⟨2, [⟨10⟩, ⟨11⟩, ⟨12⟩]⟩ : JnpMask.MLP Nat) [0, 1, 2, -1, -1] [-1, 0, 1, -1]
+        [0, 0, 1, 1, 2, 2]).layers.map (fun L => (L.weight.cond, L.weight.if_true)) =
+      [([[false, false, false, true, true], [true, false, false, true, true], [true, true, false, true, true],
+         [false, false, false, true, true]], 10),
+       ([[true, false, false, true], [true, true, false, true], [true, true, true, true], [true, false, false, true]], 11),
+       ([[true, false, false, true], [true, false, false, true], [true, true, false, true], [true, true, false, true],
+         [true, true, true, true], [true, true, true, true]], 12)] := by
+  refine ⟨?_, ?_, ?_, ?_, ?_, ?_⟩ <;> decide
 
 /-- the masks of `MaskedAutoregressive(dim=3, cond_dim=2, nn_width=4, nn_depth=2, Affine)` (compare the real
 `Where.cond` arrays) and of `dim=1` unconditional (last layer fully masked). -/
